@@ -318,3 +318,194 @@ Proof.
   exists (ex_cfg false false false true), w_P3, [(ex_S, 4)], (ratio QAlg 1 4), (ratio QAlg 1 2).
   eexists. eexists. split; [vm_compute; reflexivity|]. split; [vm_compute; reflexivity|]. repeat split.
 Qed.
+
+(** * The order of ClassShexer's stages, end to end (class mode, one document)
+
+    /repo's [ClassShexer.shex_classes] removes the empty shapes BEFORE the
+    constraints are merged since commit a3b99df ([Gen.Consts.c_clean_before_merge
+    = true], stage [ShexingFix.shex_f]); the end-to-end theorems of Props/C01 ..
+    C14 are stated for [Run.run_shapes] / [Run.run_shexc], which run the stage in
+    the OLD order ([Shexing.shex]: merge, then [_clean_empty_shapes]).
+    [RunCur.run_shapes_cur] / [run_shexc_cur] are the same pipeline with the
+    stage the code has ([ShexingFix.shex_cur], flag-driven); they are what the
+    correspondence runs compare with the real text ([Model/EntryPipe.v] and the
+    other one-document entries; the two-stream models [Run2], [Channels] and the
+    shape-map model [RunMap] call [shex_cur] themselves).
+
+    The tie (Proofs/OrderIrrelevant.v): the two pipelines are EQUAL
+    - without remove_empty_shapes (any algebra, threshold, graph), and
+    - with it, for every well-formed threshold <= 1 (the Shaper rejects
+      thresholds outside [0, 1]) when no class IRI -- object of an instantiation
+      triple, requested target class -- starts with '%' or "@" ([class_iris_ok];
+      not needed in all_classes mode), for the exact rationals without any
+      bound, for binary64 with fewer than 2^53 triples.
+    Nothing is assumed about the profile: the profiler has already dropped
+    every class without features that is not its own "original label", a class
+    with features has an instance, every instance of a class carries the class
+    among the values of the instantiation property, so the typing entry counts
+    the whole class and passes every threshold <= 1: no class of the profile
+    is empty at the threshold, and both orders are then the per-class map.
+
+    OUTSIDE that domain the theorems stated for [run_shapes] / [run_shexc] say
+    NOTHING about the code; only those stated for [run_shapes_cur] /
+    [run_shexc_cur] do.  The boundary is real: a requested target class whose
+    IRI starts with "@" is its own shape label, survives the profiler without
+    instances and reaches the stage as an empty shape
+    ([E2E_order_at_class_order_refuted]: other statement order with
+    inverse_paths; [E2E_order_at_class_typeerror_refuted]: TypeError in the old
+    order, success in the code's, with disjunctions enabled).  The real Shaper
+    agrees with [run_shexc_cur] on both inputs. *)
+From Shexer Require Import Spec.Rdf Model.Tracker Model.ShexingFix Model.SerialShexc Model.Run Model.RunCur Spec.Counts.
+From Shexer Require Import Proofs.FreqLaws Proofs.Bin64Round Proofs.ProfileChar Proofs.InverseLemmas Proofs.EndToEnd Proofs.EndToEnd2
+  Proofs.OrderIrrelevant.
+From Shexer Require Proofs.RestrictCompose.
+
+Theorem E2E_class_mode_order_irrelevant : forall fa okN okF, FreqLaws fa okN okF -> forall c (thr : F fa) g,
+  r_remove_empty c = false \/
+  ((r_targets c = None \/ class_iris_ok c g = true) /\ okF thr /\ fle fa thr (fone fa) = true /\
+   (forall n, (0 < n <= N.of_nat (List.length g))%N -> okN n)) ->
+  run_shapes_cur fa c thr g = run_shapes fa c thr g.
+Proof. exact class_mode_order_irrelevant. Qed.
+Print Assumptions E2E_class_mode_order_irrelevant.
+
+Theorem E2E_class_mode_order_irrelevant_shexc : forall fa okN okF, FreqLaws fa okN okF -> forall c (thr : F fa) g,
+  r_remove_empty c = false \/
+  ((r_targets c = None \/ class_iris_ok c g = true) /\ okF thr /\ fle fa thr (fone fa) = true /\
+   (forall n, (0 < n <= N.of_nat (List.length g))%N -> okN n)) ->
+  run_shexc_cur fa c thr g = run_shexc fa c thr g.
+Proof. exact class_mode_order_irrelevant_shexc. Qed.
+Print Assumptions E2E_class_mode_order_irrelevant_shexc.
+
+(** the two algebras, the side conditions as one boolean on the input
+    ([class_order_dom_q] / [class_order_dom_b]: remove_empty_shapes off, or
+    all_classes mode / [class_iris_ok], [0 <= num], [0 < den], threshold <= 1,
+    and for binary64 [|g| < 2^53]) *)
+Theorem E2E_class_mode_order_irrelevant_exact : forall c thr g,
+  class_order_dom_q c thr g = true ->
+  run_shapes_cur QAlg c thr g = run_shapes QAlg c thr g /\ run_shexc_cur QAlg c thr g = run_shexc QAlg c thr g.
+Proof. exact class_mode_order_irrelevant_exact. Qed.
+Print Assumptions E2E_class_mode_order_irrelevant_exact.
+
+Theorem E2E_class_mode_order_irrelevant_binary64 : forall c thr g,
+  class_order_dom_b c thr g = true ->
+  run_shapes_cur BAlg c thr g = run_shapes BAlg c thr g /\ run_shexc_cur BAlg c thr g = run_shexc BAlg c thr g.
+Proof. exact class_mode_order_irrelevant_b64. Qed.
+Print Assumptions E2E_class_mode_order_irrelevant_binary64.
+
+Theorem E2E_class_order_dom_unfold : forall c thr g,
+  class_order_dom_b c thr g =
+  negb (r_remove_empty c) ||
+  ((targets_none c || class_iris_ok c g) && wf_fracb thr && fle BAlg thr (fone BAlg) &&
+   (N.of_nat (List.length g) <? 2 ^ 53)%N).
+Proof. intros. reflexivity. Qed.
+
+(** the weakest form: the computed domain [order_dom] (remove_empty_shapes off,
+    or the front fails, or no class of the profile the front delivers is empty
+    at the threshold), any algebra, no law needed *)
+Theorem E2E_class_mode_order_irrelevant_dom : forall fa c (thr : F fa) g,
+  order_dom fa c thr g = true ->
+  run_shapes_cur fa c thr g = run_shapes fa c thr g /\ run_shexc_cur fa c thr g = run_shexc fa c thr g.
+Proof. intros fa c thr g H. split; [exact (run_shapes_cur_eq fa c thr g H) | exact (run_shexc_cur_eq fa c thr g H)]. Qed.
+Print Assumptions E2E_class_mode_order_irrelevant_dom.
+
+(** the stage-level fact behind it, for an ARBITRARY profile *)
+Theorem ShexStage_order_irrelevant : forall fa cfg (thr : F fa) P C,
+  x_remove_empty cfg = false \/ no_empty_class fa cfg thr C P = true ->
+  shex_cur fa cfg thr P C = shex fa cfg thr P C.
+Proof. exact stage_order_irrelevant. Qed.
+Print Assumptions ShexStage_order_irrelevant.
+
+(** what the front guarantees (one document, remove_empty_shapes on) *)
+Theorem E2E_front_no_empty_class : forall fa okN okF, FreqLaws fa okN okF -> forall c (thr : F fa) g ns P C,
+  r_remove_empty c = true -> r_targets c = None \/ class_iris_ok c g = true ->
+  okF thr -> fle fa thr (fone fa) = true ->
+  (forall n, (0 < n <= N.of_nat (List.length g))%N -> okN n) ->
+  front c g = inl (P, C) -> no_empty_class fa (scfg_of c ns) thr C P = true.
+Proof. exact front_no_empty_class. Qed.
+Print Assumptions E2E_front_no_empty_class.
+
+(** non-vacuity: a pinned graph of Proofs/RunWitness.v, remove_empty_shapes on,
+    a requested target class ("Missing") without instances, inverse_paths on:
+    inside the domain, both pipelines computed, equal, three shapes *)
+Example E2E_class_mode_order_irrelevant_nonvacuous :
+  r_remove_empty nv_cfg = true /\ In (RunWitness.ex "Missing") (match r_targets nv_cfg with Some l => l | None => [] end) /\
+  class_order_dom_b nv_cfg RunWitness.thr0 RunWitness.g_reftie_1 = true /\
+  exists ns shapes,
+    run_shapes_cur BAlg nv_cfg RunWitness.thr0 RunWitness.g_reftie_1 = inl (ns, shapes) /\
+    run_shapes BAlg nv_cfg RunWitness.thr0 RunWitness.g_reftie_1 = inl (ns, shapes) /\
+    map sh_class shapes = [RunWitness.ex "C"; RunWitness.ex "C1"; RunWitness.ex "C2"].
+Proof. exact class_mode_order_irrelevant_nonvacuous. Qed.
+
+(** the boundary: requested target classes that are their own shape label *)
+Lemma E2E_order_at_class_order_refuted :
+  c_clean_before_merge = true ->
+  exists c thr g,
+    r_remove_empty c = true /\ class_iris_ok c g = false /\ wf_frac thr /\ fle BAlg thr (fone BAlg) = true /\
+    order_dom BAlg c thr g = false /\
+    (exists t1 t2, run_shexc_cur BAlg c thr g = inl t1 /\ run_shexc BAlg c thr g = inl t2 /\ t1 <> t2) /\
+    run_shapes_cur BAlg c thr g <> run_shapes BAlg c thr g.
+Proof. exact order_at_class_order_refuted. Qed.
+
+Lemma E2E_order_at_class_typeerror_refuted :
+  c_clean_before_merge = true ->
+  exists c thr g,
+    r_remove_empty c = true /\ class_iris_ok c g = false /\ wf_frac thr /\ fle BAlg thr (fone BAlg) = true /\
+    run_shexc BAlg c thr g = inr REType /\ exists t, run_shexc_cur BAlg c thr g = inl t.
+Proof. exact order_at_class_typeerror_refuted. Qed.
+
+(** ** how the theorems stated for [run_shapes] carry over to [run_shapes_cur]:
+    rewrite with the equality (the theorem's own hypotheses imply the domain),
+    then apply the theorem.  Three instances: *)
+
+(** Props/C02.v: [C02_keys_iff_occ] *)
+Theorem E2E_cur_keys_iff_occ : forall fa c (thr : F fa) g ns shapes,
+  r_remove_empty c = false -> run_shapes_cur fa c thr g = inl (ns, shapes) ->
+  exists I, track (r_tau c) (mode_of c) (r_cap c) g = inl I /\
+    map sh_class shapes = class_keys (targets_of (pcfg_of c)) I /\
+    forall sh, In sh shapes ->
+      sh_n sh = class_count I (sh_class sh) /\
+      (forall inv p vc, In (inv, p, vc) (map (skey (scfg_of c ns)) (sh_stmts sh)) <->
+                        key_passes_occ fa c thr I g (sh_class sh) inv p vc) /\
+      (no_nonliteral_datatype g -> NoDup (map (skey (scfg_of c ns)) (sh_stmts sh))).
+Proof. exact cur_keys_iff_occ. Qed.
+Print Assumptions E2E_cur_keys_iff_occ.
+
+(** Props/C12.v: [C12_run_keys_monotone_valid] *)
+Theorem E2E_cur_run_keys_monotone_valid : forall c thr1 thr2 g ns1 s1 ns2 s2,
+  class_iris_ok c g = true -> wf_frac thr1 -> wf_frac thr2 ->
+  fle BAlg thr1 thr2 = true -> fle BAlg thr2 (fone BAlg) = true ->
+  (N.of_nat (List.length g) < 2 ^ 53)%N ->
+  run_shapes_cur BAlg c thr1 g = inl (ns1, s1) -> run_shapes_cur BAlg c thr2 g = inl (ns2, s2) ->
+  ns1 = ns2 /\
+  Forall2 (fun sh1 sh2 =>
+    sh_name sh1 = sh_name sh2 /\ sh_class sh1 = sh_class sh2 /\ sh_n sh1 = sh_n sh2 /\
+    incl (map (skey (scfg_of c ns1)) (sh_stmts sh2)) (map (skey (scfg_of c ns1)) (sh_stmts sh1))) s1 s2.
+Proof. exact cur_run_keys_monotone_valid. Qed.
+Print Assumptions E2E_cur_run_keys_monotone_valid.
+
+(** Props/C14.v: [C14_run_direct_unchanged_valid] *)
+Theorem E2E_cur_run_direct_unchanged_valid : forall c thr g ns st,
+  class_iris_ok c g = true -> wf_frac thr -> fle BAlg thr (fone BAlg) = true ->
+  (N.of_nat (List.length g) < 2 ^ 53)%N ->
+  run_shapes_cur BAlg (rwith_inverse true c) thr g = inl (ns, st) ->
+  exists sf, run_shapes_cur BAlg (rwith_inverse false c) thr g = inl (ns, sf) /\
+             Forall2 (fun sh_t sh_f =>
+               sh_name sh_t = sh_name sh_f /\ sh_class sh_t = sh_class sh_f /\ sh_n sh_t = sh_n sh_f /\
+               filter is_direct (sh_stmts sh_t) = sh_stmts sh_f) st sf.
+Proof. exact cur_run_direct_unchanged_valid. Qed.
+Print Assumptions E2E_cur_run_direct_unchanged_valid.
+
+(** Props/C01.v: [C01_figures_exact] needs no domain at all for [run_shapes_cur]
+    (the figure theorem of the stage holds in both orders) *)
+Theorem E2E_cur_figures_exact : forall fa c (thr : F fa) g ns shapes,
+  run_shapes_cur fa c thr g = inl (ns, shapes) ->
+  exists I, track (r_tau c) (mode_of c) (r_cap c) g = inl I /\
+    forall sh, In sh shapes ->
+      In (sh_class sh) (class_keys (targets_of (pcfg_of c)) I) /\
+      sh_name sh = shape_name (r_shapes_ns c) (sh_class sh) /\
+      sh_n sh = class_count I (sh_class sh) /\
+      forall st, In st (sh_stmts sh) ->
+        (s_inv st = true -> r_inverse c = true) /\
+        post_okR (scfg_of c ns) (fig_occ (r_tau c) I g (dir_of (s_inv st)) (sh_class sh) (s_prop st)) st.
+Proof. exact RestrictCompose.cur_figures_exact. Qed.
+Print Assumptions E2E_cur_figures_exact.
